@@ -5,9 +5,11 @@
    No proofs here.
 
    Names are indices: namespaces 0 = "" (default namespace), 1 = "sys", k>=2 user namespaces;
-   entity names are local to their namespace; field names < 100 are user names, 100..110 are the
-   system fields (id, room_id, cdate, mdate, sys_peer, sys_room, _entity, _json, _binary,
-   verifying_key, _signature).
+   entity names are local to their namespace; field names < 1000 are user names, 1000..1010 are
+   the system fields (id, room_id, cdate, mdate, sys_peer, sys_room, _entity, _json, _binary,
+   verifying_key, _signature).  Letter case: entity name 1000+k is entity name k spelt in the other
+   case ("e7" / "E7"), field name 500+k (k < 500) is field name k spelt in the other case
+   ("F3" / "f3") — distinct names for the data model, the same for SQLite's index names.
 
    Rust HashMaps are association lists here (insertion order) plus an explicit iteration-order
    ORACLE: every `for x in &mut map` of the code visits the elements sorted by a rank the oracle
@@ -80,13 +82,13 @@ Definition is_none {A} (o : option A) : bool := match o with None => true | Some
 Definition short_eqb (a b : eshort) : bool := opt_eqb N.eqb (fst a) (fst b) && N.eqb (snd a) (snd b).
 
 (* ------------------------------------------------------------------ parse_internal *)
-Definition is_sys_field (k : N) : bool := (100 <=? k) && (k <=? 110).
+Definition is_sys_field (k : N) : bool := (1000 <=? k) && (k <=? 1010).
 (* type of a system field (SYSTEM_FIELDS), for Index::add_field *)
 Definition sys_field_type (k : N) : option ftype :=
-  if k =? 100 then Some TB64 else if k =? 101 then Some TB64 else if k =? 102 then Some TInt
-  else if k =? 103 then Some TInt else if k =? 104 then Some (TEnt 1 4) else if k =? 105 then Some (TEnt 1 0)
-  else if k =? 106 then Some TStr else if k =? 107 then Some TStr else if k =? 108 then Some TB64
-  else if k =? 109 then Some TB64 else if k =? 110 then Some TB64 else None.
+  if k =? 1000 then Some TB64 else if k =? 1001 then Some TB64 else if k =? 1002 then Some TInt
+  else if k =? 1003 then Some TInt else if k =? 1004 then Some (TEnt 1 4) else if k =? 1005 then Some (TEnt 1 0)
+  else if k =? 1006 then Some TStr else if k =? 1007 then Some TStr else if k =? 1008 then Some TB64
+  else if k =? 1009 then Some TB64 else if k =? 1010 then Some TB64 else None.
 
 (* parse_entity: Entity::add_field for each field in text order;
    insert_field: short name = RESERVED_SHORT_NAMES + fields.len() *)
@@ -100,7 +102,7 @@ Fixpoint add_fields (ds : list fdecl) (acc : list field) : res (list field) :=
   end.
 
 (* Index::name is determined by the entity and the field names: an index is its code *)
-Definition idx_code (l : list N) : N := fold_left (fun acc f => acc * 128 + f + 1) l 0.
+Definition idx_code (l : list N) : N := fold_left (fun acc f => acc * 2048 + f + 1) l 0.
 
 Definition index_type_ok (t : ftype) : bool :=
   match t with TEnt _ _ | TArr _ _ | TJson => false | _ => true end.
@@ -306,6 +308,30 @@ Definition upd (o : oracle) (sys : bool) (M : dmodel) (v : version) : dmodel * o
   | None => (M', None)
   | Some x => (M, Some x)
   end.
+
+(* ------------------------------------------------------------------ storing the model *)
+(* The writer of GraphDatabase::update_data_model stores the serialised model and creates every
+   index of every entity (`CREATE INDEX <Index::name> ..`) in one transaction.  Index::name is
+   "idx$" + the entity's qualified name ('.' -> '$') + '$' + the field names; SQLite compares index
+   names without regard to letter case while the code's `index exists` test is exact: two indexes
+   whose names differ only by case make CREATE INDEX fail, the transaction is rolled back and the
+   call returns the database error. *)
+Definition fold_ent (e : N) : N := if 1000 <=? e then e - 1000 else e.
+Definition fold_fld (f : N) : N := if (500 <=? f) && (f <? 1000) then f - 500 else f.
+Definition idx_names (v : version) : list (N * N * list N) :=
+  flat_map (fun b => flat_map (fun d => map (fun ix => (fst b, ed_name d, ix)) (ed_idx d)) (snd b)) (v_blocks v).
+Definition idx_same (a b : N * N * list N) : bool :=
+  let '(n1, e1, l1) := a in let '(n2, e2, l2) := b in N.eqb n1 n2 && N.eqb e1 e2 && list_eqb N.eqb l1 l2.
+Definition idx_same_nocase (a b : N * N * list N) : bool :=
+  let '(n1, e1, l1) := a in let '(n2, e2, l2) := b in
+  N.eqb n1 n2 && N.eqb (fold_ent e1) (fold_ent e2) && list_eqb N.eqb (map fold_fld l1) (map fold_fld l2).
+Fixpoint has_clash (l : list (N * N * list N)) : bool :=
+  match l with
+  | [] => false
+  | a :: r => existsb (fun b => idx_same_nocase a b && negb (idx_same a b)) r || has_clash r
+  end.
+(* an accepted version (every entity of the stored model is declared in it, with its indexes) *)
+Definition storage_refuses (v : version) : bool := has_clash (idx_names v).
 
 (* ------------------------------------------------------------------ histories *)
 Record step := mkS { s_sys : bool; s_ver : version }.
